@@ -403,7 +403,7 @@ func traceBack(v ssa.Value, visit func(ssa.Value) bool, seen map[ssa.Value]bool,
 	case *ssa.Index:
 		return traceBack(x.X, visit, seen, depth+1)
 	case *ssa.Lookup:
-		return traceBack(x.X, visit, seen, depth+1)
+		return traceBack(x.X, visit, seen, depth+1) || traceBack(x.Index, visit, seen, depth+1)
 	case *ssa.BinOp:
 		return traceBack(x.X, visit, seen, depth+1) || traceBack(x.Y, visit, seen, depth+1)
 	case *ssa.UnOp:
